@@ -524,6 +524,10 @@ func Re(errBuf *strings.Builder, validName, objName, fieldName string, tv reflec
 	}
 
 	l := len(validName)
+	if splitIndex == l-1 { // 只有一个单引号
+		errBuf.WriteString(GetJoinFieldErr(objName, fieldName, reErr))
+		return
+	}
 	b := make([]byte, 0, l)
 	i := splitIndex + 1
 	for ; i < l; i++ {
